@@ -461,6 +461,26 @@ Definition cu_apply (s : cu_state) (e : cu_env) (u : cu_update) : cu_state * cu_
   | None => (s, AErr, [])
   end.
 
+(* ---- the protected mailbox ---- *)
+(* the four updates that work on the mailbox table *)
+Definition cu_mailbox_kind (u : cu_update) : bool :=
+  match u with
+  | UMailboxCreated _ _ _ _ _ | UMailboxDeleted _ | UMailboxUpdated _ _ | UMailboxIDChanged _ _ => true
+  | _ => false
+  end.
+
+(* the update names the recovery mailbox: MailboxCreated / MailboxDeleted / MailboxUpdated by REMOTE id, MailboxIDChanged
+   by INTERNAL id *)
+Definition cu_aimed_at_recovery (s : cu_state) (u : cu_update) : bool :=
+  match u with
+  | UMailboxCreated rid _ _ _ _ => rid =? cu_recovery_rid
+  | UMailboxDeleted rid => rid =? cu_recovery_rid
+  | UMailboxUpdated rid _ => rid =? cu_recovery_rid
+  | UMailboxIDChanged iid _ =>
+      match cu_find_mb_id s iid with Some m => mb_rid m =? cu_recovery_rid | None => false end
+  | _ => false
+  end.
+
 (* the update goroutine: updates are taken from the channel one by one; whatever the outcome of one, the next is
    applied to the state the previous left *)
 Fixpoint cu_run (s : cu_state) (l : list (cu_env * cu_update)) : cu_state * list cu_ack :=
